@@ -19,21 +19,27 @@ PROP = "C18"
 IMPORTS = "From JV Require Import Lib.Base Model.SaveFS Spec.SaveFSSpec Corr.C18Judge."
 RULE = ("a systematic sweep (one nested configuration with 4 sub-files x single/multi-file x overwrite on/off x skip_validation "
         "x {no fault, invalid value at each int key, unserialisable value at each Any key, every index of the failing "
-        "dump_using_format call} x {nothing, each target, all targets, a directory in the way} pre-existing) plus seeded "
+        "dump_using_format call} x {nothing, each target, all targets, a directory in the way} pre-existing), a deterministic list of "
+        "special shapes (two sub-configs with one basename, a sub-file named like the main file, a save_path_content file "
+        "saved onto itself / from elsewhere / whose source is gone, the last serialisation failing with every target "
+        "pre-existing, each form of the target path) plus seeded "
         "random configurations (0-4 sub-files of 4 kinds, nesting, dotted keys, colliding basenames, same-directory layout, "
-        "save over the loaded file, json format, missing target directory, two simultaneous faults); a case is "
+        "save over the loaded file, json format, missing target directory, two simultaneous faults, 20% with the target path "
+        "given as ./x, ../out/x, dir//x or through a symlink); a case is "
         "non-trivial when it has a sub-file, a fault or a pre-existing target; distinct = distinct "
         "(flags, declaration shape, faults, pre-existing entries, outcome)")
 TRUSTED = [
     "Coq 8.16.1 kernel + vm_compute",
     "tie/impl/c18_save.py: scratch-directory fixtures, fault injection from the harness process, directory snapshots, "
     "text interning, exception -> {ok, path, refuse, fail}; and the Gallina printer",
-    "hand-written model coq/Model/SaveFS.v, tied by per-case agreement evaluated inside Coq",
+    "hand-written model coq/Model/SaveFS.v (save_fixed), tied by per-case agreement evaluated inside Coq",
     "the oracle answers of the case (validate passes?, serialised texts) are measured on the real validate / dump / "
     "dump_using_format before save is called; the part of the configuration each file stands for is rebuilt by the harness",
 ]
 ASSUMPTIONS = [
-    "the target directory is flat and local (no symlinks, no permission bits - the harness runs as root, no fsspec / URL targets)",
+    "the target directory is flat and local (no symlinks among its entries, no permission bits - the harness runs as root, "
+    "no fsspec / URL targets); the form of the target path (plain, ./x, ../d/x, d//x, through a symlinked directory) is part "
+    "of the input (i_alias)",
     "failures considered: refused or uncreatable target, invalid configuration, failing serialisation, unreadable "
     "save_path_content source; an OS-level crash between two successful writes is outside the property",
     "serialise/parse round trip of the written texts is C01's subject: the theorem states which text is in which file",
@@ -41,8 +47,12 @@ ASSUMPTIONS = [
 EXHAUSTIVE = {"quick": False, "thorough": False}
 # The four defects of the pinned tree (single-file-truncate, multifile-partial-write, subfile-name-collision,
 # path-content-self-truncate) were repaired in /repo by "fix: save renders and validates every file before writing
-# any ..." (known_findings/C18.txt, fixed: lines). The judge therefore compares the implementation with the
-# render-then-write model (save_fixed) and no finding class is left: any recurrence is a VIOLATION.
+# any ..." (known_findings/C18.txt, fixed: lines). The judge compares the implementation with the render-then-write
+# model save_fixed; any recurrence of those is a VIOLATION.
+# One residual hole of that fix is open (class 1): the collision test against the main file compares absolute path
+# strings and is defeated by a target path given as ./main.yaml, ../d/main.yaml, d//main.yaml or through a symlink.
+# When fixes/C18-collision-realpath.patch is applied in /repo:  FINDING_CLASSES = {}  and  JUDGE = "judge_fixed"
+# (the model then ignores the form of the target path), and the open: line in known_findings/C18.txt becomes fixed:.
 FINDING_CLASSES = {}
 JUDGE = "judge_fixed"
 
@@ -93,10 +103,13 @@ def sub_files(decl):
 
 
 def mk_case(decl, multifile=True, overwrite=False, skipval=False, fmt="yaml", main="main.yaml", dir_ok=True,
-            layout="sep", input_main="input_main.yaml", pre=(), faults=()):
+            layout="sep", input_main="input_main.yaml", pre=(), faults=(), via="plain"):
     return {"multifile": multifile, "overwrite": overwrite, "skipval": skipval, "fmt": fmt, "main": main, "dir_ok": dir_ok,
             "layout": layout, "input_main": input_main, "decl": decl, "pre": [list(p) for p in pre],
-            "faults": [list(f) for f in faults]}
+            "faults": [list(f) for f in faults], "via": via}
+
+
+VIAS = ["plain", "dot", "dotdot", "slash", "link"]
 
 
 SWEEP_DECL = [
@@ -130,6 +143,65 @@ def sweep(tier):
         for fl in ([["invalid", "s1.x"]], [["invalid", "k"], ["unser", "s2.w"]], [["invalid", "d1"], ["failcall", 2]], []):
             for pre in ([], [["main.yaml", "file", "old"]]):
                 cases.append(mk_case(decl, multifile, True, True, pre=pre, faults=fl))
+    return cases
+
+
+def sweep_special():
+    """Deterministic scenarios that need a particular shape: colliding file names, a content file saved onto itself,
+    a source that disappeared, the LAST serialisation failing with everything pre-existing."""
+    cases = []
+    sub = lambda name, f, d: it_parser(name, [it_int("x", 5), it_any("w")], f, d)  # noqa: E731
+    # two sub-configs with the same basename (parser/parser, dict/parser, nested/top-level)
+    clash_decls = [
+        [it_int("k", 3), sub("s1", "s.yaml", "a"), sub("s2", "s.yaml", "b")],
+        [it_int("k", 3), it_dict("d1", {"a": 1, "b": 2}, "s.yaml", "a"), sub("s2", "s.yaml", "b")],
+        [it_int("k", 3), it_parser("s1", [it_int("x", 5), sub("inner", "s.yaml", "b")], "s.yaml", "a")],
+        [it_int("k", 3), sub("s1", "s.yaml", "a"), it_jsonnet("jn", "s.yaml", "b")],
+    ]
+    for decl in clash_decls:
+        for overwrite in (False, True):
+            for pre in ([], [["s.yaml", "file", "old s"]], [["main.yaml", "file", "old main"], ["other.txt", "file", "keep"]]):
+                for fl in ([], [["failcall", 2]]):
+                    cases.append(mk_case(decl, True, overwrite, pre=pre, faults=fl))
+        cases.append(mk_case(decl, False, True))
+    # a sub-file named like the main file
+    for decl in ([it_int("k", 3), sub("s1", "s1.yaml", "a"), sub("s2", "s2.yaml", "b")],
+                 [it_int("k", 3), it_dict("d1", {"a": 1, "b": 2}, "s2.yaml", "a")],
+                 [it_int("k", 3), it_pathc("pc", "precious", "s2.yaml", "a")]):
+        for overwrite in (False, True):
+            for pre in ([], [["s2.yaml", "file", "old"]]):
+                for via in VIAS:
+                    cases.append(mk_case(decl, True, overwrite, main="s2.yaml", pre=pre, via=via))
+    # the form of the target path must not matter otherwise
+    for via in VIAS[1:]:
+        for multifile in (True, False):
+            for fl in ([], [["invalid", "k"]], [["failcall", 1]]):
+                cases.append(mk_case(clash_decls[0], multifile, True, pre=[["main.yaml", "file", "old main"]], faults=fl, via=via))
+                cases.append(mk_case(SWEEP_DECL, multifile, False, pre=[["other.txt", "file", "keep"]], faults=fl, via=via))
+    # save_path_content: file living in the directory saved to / elsewhere / gone; a later failure after it
+    pc_decl = [it_int("k", 3), it_any("anyv"), it_pathc("pc.path", "precious", "file.txt"), sub("s1", "s1.yaml", "")]
+    for layout in ("same", "sep"):
+        for overwrite in (False, True):
+            for main in ("main.yaml", "input_main.yaml"):
+                if layout == "sep" and main != "main.yaml":
+                    continue
+                faultsets = [[], [["unser", "anyv"]], [["failcall", 0]], [["failcall", 1]], [["invalid", "k"]]]
+                if layout == "sep":
+                    faultsets += [[["missing_src", "pc.path"]], [["missing_src", "pc.path"], ["invalid", "k"]]]
+                pres = [[]] if layout == "same" else [[], [["file.txt", "file", "old file"]],
+                                                      [["file.txt", "file", "old file"], ["s1.yaml", "file", "old s1"],
+                                                       ["main.yaml", "file", "old main"]]]
+                for fl in faultsets:
+                    for pre in pres:
+                        cases.append(mk_case(pc_decl, True, overwrite, main=main, layout=layout, pre=pre, faults=fl))
+    # everything pre-existing, overwrite=True, the last step (serialisation of the main configuration) fails
+    late = [it_any("anyv"), it_int("k", 3), sub("s1", "s1.yaml", "a"), it_dict("d1", {"a": 1, "b": 2}, "d1.yaml"),
+            it_jsonnet("jn", "j.jsonnet", "b")]
+    allpre = [[t, "file", "old " + t] for t in ("main.yaml", "s1.yaml", "d1.yaml", "j.jsonnet")]
+    for fl in ([["unser", "anyv"]], [["failcall", 2]], [["failcall", 1]], [["unser", "s1.w"]], []):
+        for overwrite in (False, True):
+            for pre in ([], allpre, allpre[:1], allpre[3:]):
+                cases.append(mk_case(late, True, overwrite, pre=pre, faults=fl))
     return cases
 
 
@@ -236,11 +308,12 @@ def gen_random(rng):
         faults.append(rng.choice([["unser", rng.choice(anys)], ["failcall", rng.randrange(ncalls + 1)]]))
     return mk_case(decl, multifile=multifile, overwrite=rng.random() < 0.55, skipval=rng.random() < 0.15,
                    fmt="json" if rng.random() < 0.12 else "yaml", main=main, dir_ok=rng.random() > 0.04, layout=layout,
-                   input_main=input_main, pre=pre, faults=faults)
+                   input_main=input_main, pre=pre, faults=faults,
+                   via=rng.choice(VIAS[1:]) if rng.random() < 0.2 else "plain")
 
 
 def generate(rng, tier):
-    cases = sweep(tier)
+    cases = sweep(tier) + sweep_special()
     for _ in range(500 if tier == "quick" else 12000):
         cases.append(gen_random(rng))
     return cases
@@ -285,10 +358,10 @@ def term(case, obs):
         ["{| s_depth := %s; s_branch := %s; s_name := %s; s_src := %s |}" % (g_nat(s["depth"]), g_bool(s["branch"]), g_str(s["name"]), g_src(s["src"]))
          for s in obs["subs"]], "sub")
     fc = [f[1] for f in case["faults"] if f[0] == "failcall"]
-    inp = ("{| i_multifile := %s; i_overwrite := %s; i_skipval := %s; i_dir_ok := %s; i_main := %s; i_fs := %s; "
+    inp = ("{| i_multifile := %s; i_overwrite := %s; i_skipval := %s; i_dir_ok := %s; i_alias := %s; i_main := %s; i_fs := %s; "
            "i_valid := %s; i_full := %s; i_subs := %s; i_mainr := %s; i_failcall := %s |}") % (
         g_bool(case["multifile"]), g_bool(case["overwrite"]), g_bool(case["skipval"]), g_bool(case["dir_ok"]),
-        g_str(case["main"]), g_fs(obs["before"]), g_bool(obs["valid"]), g_outcome(obs["full"]), subs,
+        g_bool(obs["alias"]), g_str(case["main"]), g_fs(obs["before"]), g_bool(obs["valid"]), g_outcome(obs["full"]), subs,
         g_outcome(obs["mainr"]), "(Some %s)" % g_nat(fc[0]) if fc else "None")
     res = {"ok": "KOk", "path": "KPath", "refuse": "KRefuse", "fail": "KFail"}[obs["res"]]
     return "{| c_in := %s; c_res := %s; c_fs := %s; c_reparse := %s |}" % (inp, res, g_fs(obs["after"]), g_bool(bool(obs["reparse"])))
@@ -302,15 +375,16 @@ def nontrivial_key(case, obs):
     if not (obs["subs"] or case["faults"] or any(p[0] == case["main"] for p in case["pre"])):
         return None
     return json.dumps([case["multifile"], case["overwrite"], case["skipval"], case["fmt"], case["main"], case["dir_ok"],
-                       case["layout"], shape(case["decl"]), case["faults"], [p[:2] for p in case["pre"]], obs["res"],
+                       case.get("via", "plain"), case["layout"], shape(case["decl"]), case["faults"], [p[:2] for p in case["pre"]], obs["res"],
                        obs["after"] == obs["before"]])
 
 
 def category(case, obs):
     f = "+".join(sorted({x[0] for x in case["faults"]})) or "nofault"
     changed = "unchanged" if obs["after"] == obs["before"] else "changed"
-    return "%s/%s/%d subs/%s/%s/%s" % ("multi" if case["multifile"] else "single", "ow" if case["overwrite"] else "noow",
-                                       min(len(obs["subs"]), 4), f, obs["res"], changed)
+    return "%s/%s/%d subs/%s/%s/%s%s" % ("multi" if case["multifile"] else "single", "ow" if case["overwrite"] else "noow",
+                                         min(len(obs["subs"]), 4), f, obs["res"], changed,
+                                         "/path as " + case["via"] if obs.get("alias") else "")
 
 
 def describe(case, obs):
@@ -321,7 +395,8 @@ def describe(case, obs):
 
     return {
         "call": "parser.save(cfg, %r, format=%r, skip_validation=%s, overwrite=%s, multifile=%s)%s" % (
-            case["main"], case["fmt"], case["skipval"], case["overwrite"], case["multifile"],
+            {"plain": "<dir>/", "dot": "./", "dotdot": "../out/", "slash": "<dir>//", "link": "<symlink to dir>/"}[case.get("via", "plain")]
+            + case["main"], case["fmt"], case["skipval"], case["overwrite"], case["multifile"],
             "" if case["dir_ok"] else " in a directory that does not exist"),
         "configuration": shape(case["decl"]),
         "layout": case["layout"],
@@ -363,29 +438,42 @@ def shrink(case):
         if not used <= live:
             continue
         yield c
-    for k, v in (("fmt", "yaml"), ("skipval", False), ("layout", "sep"), ("dir_ok", True)):
-        if case[k] != v and not (k == "layout"):
+    for k, v in (("fmt", "yaml"), ("skipval", False), ("layout", "sep"), ("dir_ok", True), ("via", "plain"), ("via", "dot")):
+        if case.get(k, v) != v and not (k == "layout"):
             c = copy.deepcopy(case)
             c[k] = v
             yield c
 
 
 META = {
-    "level_text": "Theorems in coq/Properties/C18.v about the step-list model of ArgumentParser.save over a directory "
-                  "name -> File text | Dir, for every directory content, any number of sub-files and every oracle of which "
-                  "validate / serialiser / read step fails: C18_no_silent_overwrite (without overwrite=True every existing "
-                  "file keeps its content, success or failure; existing target or sub-file => the save fails), "
-                  "C18_only_targets_touched, C18_failed_save_changes_nothing (a failing save leaves the directory unchanged "
-                  "when the target is refused/uncreatable or, in multi-file mode, the configuration is invalid), "
-                  "C18_save_then_parse (after success each file holds exactly the text it stands for, for distinct file "
-                  "names), C18_fixed_order_all_or_nothing (render-then-write order satisfies the unguarded statement). The "
-                  "unguarded statements are refuted on the faithful model by four witnesses that replay on the pinned tree "
-                  "(known findings). The model is tied to the real save by fault injection from the harness in scratch "
-                  "directories with directory snapshots; agreement with model and spec is computed inside Coq.",
-    "level_note": "Trusted: Coq kernel/VM; the fixture/snapshot harness; the model's faithfulness outside the exercised "
-                  "scenarios; validate, the serialiser and get_content are an oracle (their answers are measured per case, "
-                  "the serialise/parse round trip is C01). No axioms. OS-level crashes between writes, permissions, "
-                  "symlinks, fsspec/URL targets are outside the statement.",
-    "technique": "Rocq proof by induction over the step list / the sub-file list with frame and keeps-invariants + "
-                 "fault-injection correspondence evaluated in Coq",
+    "level_text": "Theorems in coq/Properties/C18.v about save_fixed, the step-list model of ArgumentParser.save (check and "
+                  "render every file, refuse two configs mapped to one file, then write) over a directory name -> File text | "
+                  "Dir, for EVERY input: any directory content, single-/multi-file, any flags, any number of sub-files with "
+                  "any (also colliding) names in any order, every oracle of which validate / serialiser / get_content step "
+                  "fails (incl. an injected n-th serialiser call), any form of the target path. Without guard: "
+                  "C18_no_silent_overwrite (without overwrite=True every existing file or directory is unchanged, success or "
+                  "failure), C18_existing_target_refused, C18_existing_subfile_refused, C18_directory_in_the_way_refused, "
+                  "C18_subfile_collision_refused (each fails with the directory unchanged), C18_only_targets_touched, "
+                  "C18_failed_save_changes_nothing (EVERY failure leaves the directory exactly as it was). Guarded by "
+                  "alias_clash = false (not: multi-file, target path in non-normal form, a sub-file named like the main "
+                  "file): C18_save_then_parse (after success every target holds exactly the text it stands for; a "
+                  "save_path_content file saved onto itself keeps its content), C18_name_collision_refused, "
+                  "C18_model_meets_spec, C18_judge_sound (in class 0 an observation the model reproduces satisfies "
+                  "Spec/SaveFSSpec.v). Outside the guard read-back is false on the current tree: "
+                  "C18_collision_with_main_refuted (open finding collision-with-main-unnormalised-path, replayed on the real "
+                  "code; fixes/C18-collision-realpath.patch). The model is tied to the real save by fault injection from "
+                  "the harness in scratch directories with directory snapshots (model and spec agreement computed inside "
+                  "Coq). The four defects of the pre-fix order (fixed in /repo) are kept as *_old_order_refuted regression "
+                  "witnesses about save_old, which is not the model of the current code.",
+    "level_note": "Proved: the statements above for the model. Only exercised by the correspondence: that the real save "
+                  "performs exactly the modelled steps (result kind, directory afterwards), and that a successful save parses "
+                  "back to the configuration (the theorem states which text is in which file; the serialise/parse round trip "
+                  "of one text is C01). Trusted: Coq kernel/VM; the fixture/snapshot harness and Gallina printer; the "
+                  "model's faithfulness outside the exercised scenarios; validate, the serialiser and get_content are an "
+                  "oracle whose answers are measured per case before the call. No axioms. Outside the statement: OS-level "
+                  "failures between two writes of the final write loop, permission bits, symlinks among the directory "
+                  "entries, fsspec/URL targets.",
+    "technique": "Rocq proof by induction over the step list / sub-file list (the check phase writes nothing; invariant on "
+                 "the pending list: distinct names, each checked, each carrying the expected text; flush lemmas) + judge "
+                 "soundness theorem + fault-injection correspondence evaluated in Coq",
 }
